@@ -772,7 +772,8 @@ pub fn pump_events(ctx: &mut Ctx, check_mods: bool, check_ret: bool) -> u64 {
 // The layout properties (C03, C09, C10, C11, C15, C16) are stated about what users get; their table sweeps call the
 // layout function directly. This family observes the same facts through a real EventDecoder after short histories:
 // from each of the 1024 canonical (modifiers, mode) states, press key K, apply every sequence of <= `max_inter`
-// intermediate actions (18 modifier key events, 2 mode switches, 9 ordinary keys), press K again, and hand the
+// intermediate actions (18 modifier key events, 2 mode switches, 9 ordinary keys, change_layout to each of the ten
+// layouts), press K again, and hand the
 // second press's result to the property's own point judge together with the reference modifier state (R-MODS).
 
 pub fn family_intermediates() -> Vec<EvAct> {
@@ -787,6 +788,10 @@ pub fn family_intermediates() -> Vec<EvAct> {
     inter.push(EvAct::Ctrl(HandleControl::Ignore));
     for k in [KeyCode::A, KeyCode::S, KeyCode::Q, KeyCode::W, KeyCode::Key1, KeyCode::Key4, KeyCode::Numpad8, KeyCode::F1, KeyCode::Oem7] {
         inter.push(EvAct::Key(k, KeyState::Down));
+    }
+    // change_layout to every real layout (the decoder is over `Wrap`, so this installs another shipped layout)
+    for id in 0..N_LAYOUTS {
+        inter.push(EvAct::Layout(id as u8));
     }
     inter
 }
@@ -831,19 +836,22 @@ where
         {
             return (0, bads);
         }
-        let step = |d: &mut EventDecoder<Wrap>, r: &mut (u16, HandleControl), a: &EvAct| -> bool {
+        // reference state: (modifiers, mode, current layout)
+        let step = |d: &mut EventDecoder<Wrap>, r: &mut (u16, HandleControl, usize), a: &EvAct| -> bool {
             let ok = guarded(|| match a {
                 EvAct::Key(k, s) => {
                     let _ = d.process_keyevent(KeyEvent::new(*k, *s));
                 }
                 EvAct::Ctrl(m) => d.set_ctrl_handling(*m),
-                EvAct::Layout(_) | EvAct::Noise(_) => {}
+                EvAct::Layout(id) => d.change_layout(Wrap(*id)),
+                EvAct::Noise(_) => {}
             })
             .is_ok();
             match a {
                 EvAct::Key(k, s) => r.0 = rmods_step(r.0, *k, *s),
                 EvAct::Ctrl(m) => r.1 = *m,
-                EvAct::Layout(_) | EvAct::Noise(_) => {}
+                EvAct::Layout(id) => r.2 = *id as usize,
+                EvAct::Noise(_) => {}
             }
             ok
         };
@@ -857,7 +865,7 @@ where
             }
             let mut check = |seq: &[&EvAct], n: &mut u64, bads: &mut Vec<FamilyBad>| {
                 let mut d = d1.clone();
-                let mut r = (m0, mode0);
+                let mut r = (m0, mode0, l);
                 for a in seq {
                     if !step(&mut d, &mut r, a) {
                         return;
@@ -870,7 +878,7 @@ where
                     Ok(None) => Err("None".into()),
                     Err(p) => Err(p),
                 };
-                if let Some((class, expected)) = judge(l, k, r.0, r.1, &out) {
+                if let Some((class, expected)) = judge(r.2, k, r.0, r.1, &out) {
                     if bads.len() < 3 {
                         let mut ops: Vec<Op> = paths[m0 as usize].iter().map(|(k, s)| Op::Key(*k, *s)).collect();
                         ops.push(Op::Key(k, KeyState::Down));
@@ -882,10 +890,10 @@ where
                         };
                         let mid: Vec<String> = seq.iter().map(|a| a.op().text()).collect();
                         bads.push(FamilyBad {
-                            key: format!("{}/{}/{}", LAYOUT_NAMES[l], key_name(k), class),
+                            key: format!("{}/{}/{}", LAYOUT_NAMES[r.2], key_name(k), class),
                             text: format!(
-                                "[via EventDecoder] layout {}: from modifiers [{}] (mode {}), pressing {:?}, then [{}], then {:?} again: with modifiers [{}] in mode {} the second press must give {} but gives {}",
-                                LAYOUT_NAMES[l], mods_text(m0), mode_name(mode0), k, mid.join(", "), k, mods_text(r.0), mode_name(r.1), expected, obs
+                                "[via EventDecoder] layout {} (decoder built with {}): from modifiers [{}] (mode {}), pressing {:?}, then [{}], then {:?} again: with modifiers [{}] in mode {} the second press must give {} but gives {}",
+                                LAYOUT_NAMES[r.2], LAYOUT_NAMES[l], mods_text(m0), mode_name(mode0), k, mid.join(", "), k, mods_text(r.0), mode_name(r.1), expected, obs
                             ),
                             expected,
                             observed: obs,
